@@ -53,7 +53,7 @@ def build(variant):
     wraps = ["-Wl,--wrap=" + s for s in WRAP_PTHREAD + WRAP_WASI]
     run_cmd(["clang++"] + SAN_MEM + [os.path.join(d, o) for o in ("mod.o", "wasi.o", "glue.o", "simcore.o", "simwasi.o")] + wraps + ["-lpthread", "-lm", "-o", exe])
     mark_done(d)
-    prune_cache("e3", keep=6)
+    prune_cache("e3", keep=10)
     return exe
 
 
